@@ -84,6 +84,7 @@ def _sum_strategy(tier):
             # public queries between setting the state and stepping, dt taken from the simulator itself
             "prelude": draw(st.lists(st.sampled_from(["prev_step", "query_dt", "query_div"]), max_size=3, unique=True)),
             "dt_from_sim": draw(st.booleans()),
+            "primary_scale_exp": draw(st.one_of(st.just(0), st.just(0), st.integers(-24, 16))),
             "prev_primary": draw(gen.vector_field_spec(ncomp, kinds=["noise", "mixed", "constant"], max_mag_exp=4)),
         }
 
@@ -115,7 +116,7 @@ def _sum_body(case, ctx):
                 sim.time_step(dt=simcfg.stable_dt(cfg, dx, um, 0.5), free_stream_velocity=np.array(case["free_stream"]))
             else:
                 sim.time_step(dt=simcfg.stable_dt(cfg, dx, um, 0.5))
-    pf = gen.build_vector_field(case["primary"], shape, real_t, margin=m)
+    pf = gen.build_vector_field(case["primary"], shape, real_t, margin=m) * real_t(2.0 ** int(case.get("primary_scale_exp", 0)))
     prim[...] = pf[0] if prim.ndim == dim else pf
     sim.velocity_field[...] = gen.build_vector_field(case["velocity"], shape, real_t)
     fterm = 0.0
